@@ -402,7 +402,7 @@ def tauleap_stats(rep, tier, seed):
                                                       "sum_sq_dev": round(sq, 2)})
 
 
-def leap_drift_check(rep, rng, n_models, n_seeds, n_steps, label, chem_p=0.25, dt=0.02, max_mol=6, cap=200):
+def leap_drift_check(rep, rng, n_models, n_seeds, n_steps, label, chem_p=0.25, dt=0.02, max_mol=6, cap=200, models=None):
     """Tau-leap, any model shape: over many recorded steps x -> x', the summed deviation of every entry from its expected
     change dt * sum_channels rate(x) * effect (rates = the exact generator TLC computes for each visited state, effect with
     the chemostat exemptions) stays within a Bernstein bound; an entry no enabled channel can change must not change at all."""
@@ -410,10 +410,13 @@ def leap_drift_check(rep, rng, n_models, n_seeds, n_steps, label, chem_p=0.25, d
     from ..vlib import build
     lib = ctypes.CDLL(build.build_engine("plain"))
     runs = []
-    for k in range(n_models):
-        m = rd_model.random_model(rng, chem_p=chem_p, max_mol=max_mol, max_order=2)
-        if m.chem is not None and rng.random() < 0.5:
-            m.chem = None
+    for k in range(n_models if models is None else len(models)):
+        if models is not None:
+            m = models[k]
+        else:
+            m = rd_model.random_model(rng, chem_p=chem_p, max_mol=max_mol, max_order=2)
+            if m.chem is not None and rng.random() < 0.5:
+                m.chem = None
         trs = []
         for sd in range(n_seeds):
             tr, ts, traj = rd_rec.record_run(lib, m, "tauleap", rng.randint(0, 2 ** 31 - 1), n_steps, dt=dt, cap=cap)
@@ -529,6 +532,10 @@ def run(tier, selftest=False, only=None):
         leap_drift_check(rep, rng, n, sd, st, "random-models")
         # the same with tens of molecules per entry: every channel class fires often enough for the bound to bite
         leap_drift_check(rep, rng, (n * 3) // 5, sd, st, "random-models-large-amounts", max_mol=60, cap=2000, dt=0.01)
+        # shapes that must not depend on what the random generator draws (a held species at every position, a held reservoir)
+        from . import c03
+        leap_drift_check(rep, rng, 0, sd, st, "held-species-at-every-position", models=c03.flag_position_models())
+        leap_drift_check(rep, rng, 0, sd, st, "held-reservoir-feeds-its-neighbours", models=c03.reservoir_models(), cap=2000, dt=0.01)
     if selftest:
         self_test(rep)
     return rep.finish()
